@@ -146,3 +146,15 @@ package req
 //@
 //@ func (*socket).RemovePipe
 //@   loop 2 ensures !(c.lastPipe == p && c.reqMsg != nil)
+// ---- generated default contracts (tools/gen_default_contracts.py) ----
+//@ func NewProtocol
+//@   ensures cast("*socket", result).closed == false
+//@   ensures cast("*socket", result).defCtx != nil && cast("*socket", result).defCtx.s == cast("*socket", result)
+//@   ensures cast("*socket", result).defCtx.resendTime == 60000000000
+//@   ensures cast("*socket", result).defCtx.sendExpire == 0
+//@   ensures cast("*socket", result).defCtx.receiveExpire == 0
+//@   ensures cast("*socket", result).defCtx.bestEffort == false
+//@   ensures cast("*socket", result).defCtx.failNoPeers == false
+//@   ensures cast("*socket", result).defCtx.closed == false
+//@
+// ---- end generated default contracts ----
